@@ -4,6 +4,7 @@
 //	import <path> [format]   import one foreign document and print the Sysl text (used by
 //	                         the cross-process idempotence check)
 //	probe <path> [format]    import, compile and dump the compiled model as JSON
+//	gen <seed> <case> [tier] print the generated document of a case
 package main
 
 import (
@@ -16,6 +17,9 @@ import (
 func main() {
 	if len(os.Args) >= 3 && (os.Args[1] == "import" || os.Args[1] == "probe") {
 		os.Exit(c11.CLI(os.Args[1:]))
+	}
+	if len(os.Args) >= 2 && os.Args[1] == "gen" {
+		os.Exit(c11.GenCLI(os.Args[1:]))
 	}
 	os.Exit(fw.Main(os.Args))
 }
